@@ -86,6 +86,8 @@ def equal_d_job():
 
 # extension modules merged into this property's job list (vdriver.ext_jobs / ext_meta)
 EXT = [
+    # pixman_op / validate carry the canonical-form obligations c06.* (seeds C06-2, C06-5)
+    ("C05_opv", lambda n: n.startswith(("op", "validate", "lemma.canon"))),
     # bitmap import: the end-to-end jobs carry the canonical-form obligations (post.shape.*) (seeds C06-4 / C07-4)
     ("C07_msc", lambda n: n.startswith("image_e2e")),
 ]
